@@ -52,13 +52,13 @@ REAL_VS_STUB = {
                                 'warnings.showwarning', 'all user callbacks', 'GC timing'],
 }
 EXPECTED_PROBES = ('cb:is_leaf', 'cb:flatten_func', 'cb:unflatten_func', 'cb:map_fn', 'cb:key.__hash__', 'cb:key.__lt__',
-                   'cb:meta.__ne__', 'cb:meta.__repr__', 'cb:showwarning', 'cb:meta.__getattr__', 't8:registration-failed-in-hook', 't9:completed', 't9:refused', 't10:observations', 't3:pairing-op',
+                   'cb:meta.__ne__', 'cb:meta.__repr__', 'cb:showwarning', 'cb:meta.__getattr__', 't8:registration-failed-in-hook', 't9:completed', 't9:refused', 't10:observations', 't11:operations', 't3:pairing-op',
                    'lock:registry:acquire', 'lock:registry:contended', 'switch-inside-callback')
 # 'callback-entered-with-engine-lock-held' is reported as a counter; on a correct tree it stays 0 (it was 30 569 per
 # quick run before fix 414fcff)
 
 V = _C._verif if hasattr(_C, '_verif') else None
-TEMPLATES = ('T1', 'T2', 'T3', 'T4', 'T5', 'T6', 'T7', 'T8', 'T9', 'T10')
+TEMPLATES = ('T1', 'T2', 'T3', 'T4', 'T5', 'T6', 'T7', 'T8', 'T9', 'T10', 'T11')
 PKG_PREFIX = os.path.dirname(optree.__file__) + os.sep
 REGMOD = optree.registry
 
@@ -201,7 +201,7 @@ def run_job(job, io):
     REGMOD.__dict__['__REGISTRY_LOCK'] = old_lock
 
     for lab, n in sim.probes.items():
-        if lab.startswith(('cb:', 'lock:', 't3:', 't5:', 't8:', 't9:', 't10:')) or lab in ('callback-entered-with-engine-lock-held',):
+        if lab.startswith(('cb:', 'lock:', 't3:', 't5:', 't8:', 't9:', 't10:', 't11:')) or lab in ('callback-entered-with-engine-lock-held',):
             probes[lab] += n
     py_lines = sum(n for lab, n in sim.probes.items() if lab.startswith('py:'))
     probes['py-line-yield-points'] += py_lines
@@ -612,6 +612,67 @@ def tpl_T3(sim, tape, viol, keys, desc, cb, job):
         if current['f'] is not None:
             optree.unregister_pytree_node(cls, namespace=ns)
         others.unregister_all()
+    return {'cleanup': cleanup}
+
+
+# -------------------------------------------------------------------------------------------------- T11
+def tpl_T11(sim, tape, viol, keys, desc, cb, job):
+    """Each task works on treespecs of its OWN (nothing is shared between the tasks): comparisons / prefix tests / broadcasts
+    of two treespecs whose dict-like nodes hold the same keys in another stored order (OrderedDicts filled in another order),
+    with keys that have Python-level dunders.  Whatever scratch state an operation uses belongs to the call: results must equal
+    the ones computed alone."""
+    def pair(seed_keys, sizes):
+        ks = [U.Key(i) for i in seed_keys]
+        kids = [tuple(U.Leaf(100 * j + i) for i in range(n)) if n != 1 else U.Leaf(100 * j) for j, n in enumerate(sizes)]
+        a = OrderedDict(zip(ks, kids))
+        b = OrderedDict(reversed(list(zip(ks, kids))))
+        if tape.draw(2, 't11-nest'):
+            a, b = [a, {'w': 0}], [b, {'w': 0}]
+        return optree.tree_structure(a), optree.tree_structure(b), a, b
+
+    n_tasks = 2 + tape.draw(2, 't11-tasks')
+    work = []
+    for t in range(n_tasks):
+        sizes = [(1, 3), (3, 1), (2, 2), (1, 1, 4), (4, 1, 1)][tape.draw(5, 't11-sizes')]
+        work.append(pair(range(10 * t + 1, 10 * t + 1 + len(sizes)), sizes))
+    ops = (('is_prefix', lambda A, B, a, b: A.is_prefix(B)), ('is_suffix', lambda A, B, a, b: A.is_suffix(B)), ('le', lambda A, B, a, b: A <= B),
+           ('ge', lambda A, B, a, b: A >= B), ('lt', lambda A, B, a, b: A < B), ('eq', lambda A, B, a, b: A == B),
+           ('common_suffix', lambda A, B, a, b: repr(A.broadcast_to_common_suffix(B))), ('flatten_up_to', lambda A, B, a, b: gen.describe(A.flatten_up_to(b))),
+           ('broadcast_common', lambda A, B, a, b: gen.describe(optree.tree_broadcast_common(a, b))), ('prefix_errors', lambda A, B, a, b: len(optree.prefix_errors(a, b))))
+    progs = [[tape.draw(len(ops), 't11-op') for _ in range(1 + tape.draw(3, 't11-nops'))] for _ in range(n_tasks)]
+
+    def run_one(t, oi):
+        try:
+            return ('ok', ops[oi][1](*work[t]))
+        except BaseException as e:  # noqa: BLE001
+            return ('exc', '%s: %s' % (type(e).__name__, str(e)[:80]))
+
+    U.HOOK = None
+    solo = {(t, oi): run_one(t, oi) for t in range(n_tasks) for oi in set(progs[t])}
+    got = []
+
+    def body(t):
+        def run(task):
+            for oi in progs[t]:
+                got.append((t, oi, run_one(t, oi)))
+        return run
+
+    set_policy(sim, tape, job)
+    for t in range(n_tasks):
+        sim.spawn('t%d' % t, body(t))
+    desc.update({'programs': [[ops[o][0] for o in p] for p in progs]})
+    U.HOOK = cb
+    sim.run()
+    U.HOOK = None
+    if sim.deadlock is None and not sim.engine_blocks:
+        sim.probes['t11:operations'] += len(got)
+        for t, oi, res in got:
+            if res != solo[(t, oi)] and not (res[0] == 'exc' and 'EngineWouldBlock' in res[1]):
+                viol('not-sequential', 'T11:%s' % ops[oi][0], 'an operation on treespecs that no other task touches gave %r; run alone it gives %r' % (res, solo[(t, oi)]))
+                break
+
+    def cleanup():
+        pass
     return {'cleanup': cleanup}
 
 
